@@ -11,6 +11,7 @@ RULE = ('one record per one-shot encrypt / decrypt or per incremental history (a
         'bytewise, random (mixing in-place and buffer-to-buffer); ciphertexts solved so that the Poly1305 accumulator hits extreme limb / carry patterns; AAD of 2^32+5 bytes; distinct = (op, rounds, keylen, aad length, data length, partition shape)')
 ASSUMPTIONS = ['ChaCha20, Poly1305 models of C03/C05; composition pinned by RFC 8439 2.8.2']
 FLOORS = {'evaluations': 2000, 'distinct': 1500}
+THOROUGH_ROUNDS = 30   # thorough tier: generator passes with derived seeds (runner.gen_rounds)
 LENS = [0, 1, 15, 16, 17, 31, 32, 33, 63, 64, 65]
 
 
